@@ -7,6 +7,7 @@ Inductive prim : Type :=
 | PNull
 | PInt (z : Z)
 | PReal (txt : bytes)
+| PNum (exact short : bytes)   (* an f32 given by its exact decimal expansion and by what `{}` prints for it (oracle) *)
 | PBool (b : bool)
 | PStr (s : bytes)
 | PName (s : bytes)
@@ -37,6 +38,7 @@ Section PrimInd.
   Hypothesis Hnull : P PNull.
   Hypothesis Hint : forall z, P (PInt z).
   Hypothesis Hreal : forall t, P (PReal t).
+  Hypothesis Hnum : forall e t, P (PNum e t).
   Hypothesis Hbool : forall b, P (PBool b).
   Hypothesis Hstr : forall s, P (PStr s).
   Hypothesis Hname : forall s, P (PName s).
@@ -55,6 +57,7 @@ Section PrimInd.
     | PNull => Hnull
     | PInt z => Hint z
     | PReal t => Hreal t
+    | PNum e t => Hnum e t
     | PBool b => Hbool b
     | PStr s => Hstr s
     | PName s => Hname s
